@@ -18,6 +18,10 @@ func lockIndex(key string) byte
   function
   ensures 0 <= result && result <= 255
 
+# package error values are set once at init and never nil (errors.New)
+immutable "github.com/libp2p/go-libp2p-kad-dht/records.ErrOldRecord"
+axiom erroldrecord_nonnil: ErrOldRecord != nil
+
 func valueDsKey(key string) ds.Key
   props C05
   function
@@ -38,6 +42,18 @@ func (v *ValueStore) Put(ctx context.Context, key string, rec *recpb.Record) err
   ghost at call(Clone): $stored = unbox($ret0, *recpb.Record)
   ghost at call(Marshal): $data = $ret0; assert(unbox($arg0, *recpb.Record) == $stored && $stored.Key == rec.Key && $stored.Value == rec.Value)
   ghost at before call(Put): assert($validated); assert(held(v.putLocks[lockIndex(key)])); assert($arg1 == valueDsKey(key) && $arg2 == $data); assert($existing == nil || $selected)
+  # an acknowledged put has written the record, stamped with the time of THIS
+  # call (a skipped write would leave an older stamp: the record would age out
+  # earlier than maxRecordAge after the acknowledgement)
+  ghostvar $wrote bool = false
+  ghostvar $now time.Time = any
+  ghostvar $ts string = any
+  ensures [acknowledged-put-is-written] imp(result == nil, $wrote)
+  ghost at call(Put): $wrote = ($ret0 == nil)
+  ghost at call(Now): $now = $ret0
+  ghost at before call(FormatRFC3339): assert($arg0 == $now)
+  ghost at call(FormatRFC3339): $ts = $ret0
+  ghost at before call(Marshal): assert($stored.TimeReceived == $ts)
 
 func (v *ValueStore) existingForSelect(ctx context.Context, dskey ds.Key) (*recpb.Record, error)
   props C05
@@ -57,6 +73,22 @@ func (v *ValueStore) discardIfUnchanged(ctx context.Context, key string, dskey d
   ghost at call(Get): $cur = $ret0; assert(held(v.putLocks[lockIndex(key)]) && $arg1 == dskey)
   ghost at call(Equal): $same = ($ret0 && $arg0 == $cur && $arg1 == seen)
   ghost at before call(Delete): assert(held(v.putLocks[lockIndex(key)])); assert($arg1 == dskey); assert($same)
+
+# age rule of a stored record: expired iff ageing is on and the receive time is
+# unreadable or lies more than maxRecordAge in the past
+func (v *ValueStore) expired(rec *recpb.Record) bool
+  props C05
+  ghostvar $perr error = nil
+  ghostvar $rt time.Time = any
+  ghostvar $age time.Duration = 0
+  ghostvar $parsed bool = false
+  modifies nothing
+  ensures [age-rule] result == (v.maxRecordAge > 0 && (!$parsed || $perr != nil || $age > v.maxRecordAge))
+  ensures [internal-time-is-parsed-when-ageing-is-on] imp(v.maxRecordAge > 0, $parsed)
+  ghost at before call(ParseRFC3339): assert(rec != nil && $arg0 == rec.TimeReceived)
+  ghost at call(ParseRFC3339): $perr = $ret1; $rt = $ret0; $parsed = true
+  ghost at before call(Since): assert($arg0 == $rt)
+  ghost at call(Since): $age = $ret0
 
 func (v *ValueStore) Get(ctx context.Context, key string) (*recpb.Record, error)
   props C05 C04
@@ -151,7 +183,11 @@ func (pm *ProviderManager) collectExpired(ctx context.Context)
   ghostvar $err error = nil
   ghostvar $age time.Duration = 0
   modifies *
-  ghost at call(readTimeValue): $err = $ret1
+  ghostvar $now time.Time = any
+  ghostvar $t time.Time = any
+  ghost at call(Now): $now = $ret0
+  ghost at call(readTimeValue): $err = $ret1; $t = $ret0
+  ghost at before call(Sub): assert($recv == $now && $arg0 == $t)
   ghost at call(Sub): $age = $ret0
   ghost at before call(Delete): assert($err != nil || $age > pm.provideValidity)
 
@@ -167,6 +203,10 @@ func loadProviderSet(ctx context.Context, dstore ds.Datastore, provideValidity t
   loop 0 invariant out != nil && fresh(out) && fresh(out.set) && psWF(out)
   ghost at before call(Query): assert($arg1.Prefix == mkProvKey(k))
   ghost at call(readTimeValue): $err = $ret1; $t = $ret0
+  # the age of a record is now minus its stored time (not the reverse)
+  ghostvar $now time.Time = any
+  ghost at call(Now): $now = $ret0
+  ghost at before call(Sub): assert($recv == $now && $arg0 == $t)
   ghost at call(Sub): $age = $ret0
   ghost at call(DecodeString): $derr = $ret1
   ghost at before call(Delete)#0: assert($err != nil || $age > provideValidity)
@@ -183,8 +223,10 @@ func (pm *ProviderManager) getProviderSetForKey(ctx context.Context, k []byte) (
   loop over ps.set invariant allT(q, peer.ID, imp(has(set, q), $visited[q] && 0 <= $p2[q] && $p2[q] < len(providers) && providers[$p2[q]] == q))
   ghost at append(providers): $p2[k] = len(providers)-1
   ghost at assign(ps.set): ps.$pos = $p2
+  ghost at before call(Since): assert($arg0 == v)
   ghost at call(Since): $age = $ret0
   ghost at append(providers): assert(!($age > pm.provideValidity))
+  ghost at before call(loadProviderSet): assert($arg1 == pm.dstore && $arg2 == pm.provideValidity && $arg3 == k)
 
 # C14: the value store's Close stops the sweeper (when one was started) and
 # returns only after it announced its exit; the sweeper announces it on every path.
